@@ -97,24 +97,17 @@ def run_C19(ctx, args):
 
 
 # ------------------------------------------------------------------------------------- C20
-C20_1_TEXT = ("C20-1 finalized-path round transition accepts a chain identifier as external reference: ReadRound resolves it to that "
-              "chain's HEAD round record (not a final round) and the link is set to the head number "
-              "(kernel/graph.go validateNewRound / updateEmptyHeadRoundAndPersist, non-strict path)")
-
-
 def run_C20(ctx, args):
     quick = ctx.tier == "quick"
     rng = random.Random(ctx.seed)
     d = ctx.specdir("Rounds")
-    known = {k["id"] for k in ctx.known()}
-    k = "k1" if "C20-1" in known else "k0"
     # ---- E3
     # two driven chains, no bound on the number of operations (complete, deterministic graph) ...
-    ctx.tlc_mc(d, "MC_Rounds20.tla", "MC_Rounds20" + (".cfg" if k == "k1" else "_noalias.cfg"), workers=8, timeout=2400)
+    ctx.tlc_mc(d, "MC_Rounds20.tla", "MC_Rounds20.cfg", workers=8, timeout=2400)
     if not quick:
         # ... and three driven chains, at most 7 operations (the bound is hidden from the VIEW: with several
         # workers the explored set can differ by a few states between runs)
-        ctx.tlc_mc(d, "MC_Rounds20.tla", "MC_Rounds20_thorough" + (".cfg" if k == "k1" else "_noalias.cfg"), workers=8, timeout=3000)
+        ctx.tlc_mc(d, "MC_Rounds20.tla", "MC_Rounds20_thorough.cfg", workers=8, timeout=3000)
     for w in ("ReachBackLink", "ReachDummy"):
         ctx.tlc_mc(d, "MC_Rounds20.tla", "MC_Rounds20_%s.cfg" % w, workers=4, timeout=900, expect_violation=w, count=False)
     ctx.exhaustive = True
@@ -167,13 +160,17 @@ def run_C20(ctx, args):
     ctx.cov["accepted_transitions"] = sum(1 for e in ops if e["o"]["op"] != "Add" and e["res"] == "ok")
     ctx.cov["rejected_transitions"] = sum(1 for e in ops if e["o"]["op"] != "Add" and e["res"] != "ok")
     ctx.cov["dummy_starts"] = sum(1 for e in ops if e.get("dummy"))
+    ctx.cov["chain_identifier_references_refused"] = sum(1 for e in ops if e["o"]["op"] != "Add" and e["o"]["ext"]["k"] == "H" and e["res"] == "err")
+    ctx.cov["chain_identifier_references_accepted"] = sum(1 for e in ops if e["o"]["op"] != "Add" and e["o"]["ext"]["k"] == "H" and e["res"] == "ok")
+    ctx.cov["aborts"] = sum(1 for e in ops if e["res"] == "panic")
+    ctx.cov["durable_memory_link_disagreements"] = sum(1 for e in events if e["obs"]["dl"] != e["obs"]["ml"])
     ctx.rule = (("a seeded selection (every kind of step, at most 260 walks) of the edges" if quick else "every edge") +
                 " of the exhaustive TLC state graph of MC_Rounds20 (emission family) replayed on a real kernel.Node over a "
                 "real BadgerStore with a generated 7-chain genesis (Chain.AddSnapshot, startNewRoundAndPersist, "
                 "updateEmptyHeadRoundAndPersist; read back through ReadRound/ReadLink and ChainState), plus seeded random walks; "
                 "distinct = distinct operation sequences with at least one accepted transition")
     ctx.samples = [[[e["o"]["op"], e["o"]["c"], e["o"]["ext"], e["res"]] for e in t[1] if e["ev"] == "Op"][:8] for t in traces[:2] + traces[-2:]]
-    r = ctx.tlc_trace(d, "Trace_Rounds20.tla", "Trace_Rounds20_full_%s.cfg" % k, trace, timeout=2400)
+    r = ctx.tlc_trace(d, "Trace_Rounds20.tla", "Trace_Rounds20_full.cfg", trace, timeout=2400)
     out = r["out"]
     if r["accepted"]:
         ctx.traces = len(traces)
@@ -183,7 +180,7 @@ def run_C20(ctx, args):
         ctx.mismatches.append({"line": r["line"], "invariant": r["invariant"],
                                "event": {kk: vv for kk, vv in events[r["line"] - 1].items() if kk != "obs"}
                                if r["line"] and r["line"] <= len(events) else None})
-        r2 = ctx.tlc_trace(d, "Trace_Rounds20.tla", "Trace_Rounds20_monitor_%s.cfg" % k, trace, timeout=2400)
+        r2 = ctx.tlc_trace(d, "Trace_Rounds20.tla", "Trace_Rounds20_monitor.cfg", trace, timeout=2400)
         out = r2["out"]
         if r2["accepted"]:
             ctx.traces = len(traces)
@@ -205,12 +202,9 @@ def run_C20(ctx, args):
                           {"ops": [e["o"] for e in bad[1][:idx + 1] if e["ev"] == "Op"], "failing_index": idx,
                            "state_before": bad[1][idx - 1]["obs"] if idx >= 1 else None, "failing_event": ev,
                            "invariant": r2["invariant"]})
-    if k == "k1" and ("KNOWN-REACHED" in out or any(e["ev"] == "Op" and e["res"] == "ok" and e["o"]["op"] != "Add"
-                                                    and e["obs"]["ext"][e["o"]["c"] - 1]["k"] == "H" for e in events)):
-        ctx.known_reached.append(C20_1_TEXT)
     ctx.assumptions += [
         "all round starts lie within minutes of each other: the 'external reference too early against the best round' rule (more than "
-        "5 h behind) is exercised only through head records (start 0); node set = 7 genesis nodes, no membership change",
+        "5 h behind) is not exercised; node set = 7 genesis nodes, no membership change",
         "snapshots are put into head rounds through the real Chain.AddSnapshot with an unverified certificate mask (finalization "
         "checks belong to C09); one snapshot per round",
     ]
